@@ -26,6 +26,10 @@ STRAYS = ['NAME', 'NUMBER', 'STRING', 'EQ', 'NE', 'GT', 'LTE', 'PLUS', 'MINUS', 
           'RBRACE', 'NEWLINE', 'AND', 'OR', 'IN', 'NOT', 'IF', 'ELSE', 'TRUE', 'NONE', 'DEL']
 
 
+EXOTIC_STRINGS = ['"a\x0cb"', '"\u2028"', '"x\x85y"', '"cr\rlf"', "'\x0b\x1c\x1d\x1e'", '"\u2029 z"', 'r"\x0c"']
+POOLS = {'STRING': gram.STRINGS + EXOTIC_STRINGS + EXOTIC_STRINGS}
+
+
 def setup(ctx):
     from smartquery import SqParser
     ctx.P = SqParser()
@@ -41,7 +45,7 @@ DIRECTED = [
     'a = 1\n\n\n  ) ',
     '1 +', 'f(', 'x =', 'del a', 'a.b', '[1, 2', '{"a": ', '(x, y) =>', 'a if b else',
     'x = 1;;;y = 2 3',
-    '# only\n# comments\n1 2',
+    '# only\n# comments\n1 2', 'x = "a\x0cb\u2028c"\ny = )', '# c \x0b \x85 \u2029\n1 2', 's = "cr\rlf" 5',
     'f(1,\n  # comment ) \n 2 3)',
 ]
 
@@ -94,7 +98,7 @@ def message_ok(msg, raw, val, line):
 
 
 def parses(ctx, types, seed):
-    _, text, _ = gram.render_layout(types, gram.Cyc(seed), comments=0.3)
+    _, text, _ = gram.render_layout(types, gram.Cyc(seed), comments=0.3, pools=POOLS)
     try:
         ctx.P.parse(text)
         return True
@@ -125,7 +129,7 @@ def run_one(case, ctx, base_ok):
     if kind == 'text':
         text = case[1]
     else:
-        _, text, _ = gram.render_layout(case[1], gram.Cyc(case[2]), comments=0.3)
+        _, text, _ = gram.render_layout(case[1], gram.Cyc(case[2]), comments=0.3, pools=POOLS)
     M7 = ctx.M7
     M7.begin()
     try:
